@@ -194,7 +194,7 @@ def parse_ir2c_info(txt):
 
 # ------------------------------------------------------------------ CBMC
 CBMC_BASE = ['--unwinding-assertions', '--drop-unused-functions', '--no-malloc-may-fail',
-             '--object-bits', '12', '--verbosity', '6']
+             '--object-bits', '12', '--verbosity', '8']
 
 RES_RE = re.compile(r'^\[([^\]]+)\] (?:line (\d+) )?(.*): (SUCCESS|FAILURE|UNKNOWN|ERROR)$')
 
